@@ -444,7 +444,7 @@ func ruleNatsPlumbing(c *Ctx) {
 			case "NoReconnect":
 				hasNoRe = true
 			case "ClosedHandler":
-				if mc, ok := stripConv(call.Common().Args[0]).(*ssa.MakeClosure); ok && strings.Contains(mc.Fn.Name(), "onClose") {
+				if mc, ok := stripConv(call.Common().Args[0]).(*ssa.MakeClosure); ok && (strings.Contains(mc.Fn.Name(), "onClose") || callsStoredHandler(p, mc)) {
 					hasClosed = true
 					if conditional(call, 0) {
 						condClosed = true
@@ -1448,6 +1448,38 @@ func takesRequestCB(t *Tracer, fr *Frame, call ssa.CallInstruction) bool {
 				if _, isSig := prm.Type().Underlying().(*types.Signature); isSig {
 					return true
 				}
+			}
+		}
+	}
+	return false
+}
+
+// callsStoredHandler: the function value handed to the NATS client as closed handler is a method of the adapter
+// that (itself or through helpers) calls the handler its owner stored with SetClosedHandler — whatever it is named.
+func callsStoredHandler(p *Prog, mc *ssa.MakeClosure) bool {
+	f, _ := mc.Fn.(*ssa.Function)
+	if f == nil {
+		return false
+	}
+	if strings.HasSuffix(f.Name(), "$bound") {
+		if m := boundMethod(f); m != nil {
+			if mf := p.SSA.FuncValue(m); mf != nil {
+				f = mf
+			}
+		}
+	}
+	closeH := natsFields(p).closeH
+	if closeH == nil {
+		return false
+	}
+	for _, g := range p.withHelpers(f) {
+		for _, call := range callsIn(g) {
+			cc := call.Common()
+			if cc.IsInvoke() || cc.StaticCallee() != nil {
+				continue
+			}
+			if fld, _ := fieldLoad(cc.Value); fld == closeH {
+				return true
 			}
 		}
 	}
